@@ -11,6 +11,7 @@ def step (line : String) : String :=
     | "filters" :: rest => Filters.run rest
     | "forcing" :: rest => Forcing.run rest
     | "units" :: rest => Units.run rest
+    | "comb" :: rest => Comb.run rest
     | _ => none
   r.getD "bad-op"
 
